@@ -384,13 +384,30 @@ def _(w):
 def _(w):
     x = w.pick()
     s = w.rng.choice([2, -1.5, 0, 0.5, torch.tensor(2.0, dtype=w.dt), torch.tensor([0.25], dtype=w.dt)])
-    o = w.rng.choice(['x+s', 's+x', 'x-s', 's-x', 'x*s', 's*x', 'x/s'])
-    f = {'x+s': lambda a: a + s, 's+x': lambda a: s + a, 'x-s': lambda a: a - s, 's-x': lambda a: s - a, 'x*s': lambda a: a * s, 's*x': lambda a: s * a, 'x/s': lambda a: a / s}[o]
-    if o == 'x/s' and (torch.is_tensor(s) and float(s.reshape(-1)[0]) == 0 or (not torch.is_tensor(s) and s == 0)):
+    o = w.rng.choice(['x+s', 's+x', 'x-s', 's-x', 'x*s', 's*x', 'x/s', 'x+=s', 'x-=s', 'x*=s', 'x/=s'])
+
+    def aug(sym):
+        # augmented assignment on a second reference to the operand (python falls back to y = y <op> s: a NEW object; the operand must not move)
+        def f_(a):
+            y = a
+            if sym == '+':
+                y += s
+            elif sym == '-':
+                y -= s
+            elif sym == '*':
+                y *= s
+            else:
+                y /= s
+            return y
+        return f_
+    f = {'x+s': lambda a: a + s, 's+x': lambda a: s + a, 'x-s': lambda a: a - s, 's-x': lambda a: s - a, 'x*s': lambda a: a * s, 's*x': lambda a: s * a, 'x/s': lambda a: a / s,
+         'x+=s': aug('+'), 'x-=s': aug('-'), 'x*=s': aug('*'), 'x/=s': aug('/')}[o]
+    if o in ('x/s', 'x/=s') and (torch.is_tensor(s) and float(s.reshape(-1)[0]) == 0 or (not torch.is_tensor(s) and s == 0)):
         raise _NA()
     sv = complex(s.reshape(-1)[0]) if torch.is_tensor(s) else s
     sv = sv.real if isinstance(sv, complex) and sv.imag == 0 else sv
-    fm = {'x+s': lambda a: a + sv, 's+x': lambda a: sv + a, 'x-s': lambda a: a - sv, 's-x': lambda a: sv - a, 'x*s': lambda a: a * sv, 's*x': lambda a: sv * a, 'x/s': lambda a: a / sv}[o]
+    fm = {'x+s': lambda a: a + sv, 's+x': lambda a: sv + a, 'x-s': lambda a: a - sv, 's-x': lambda a: sv - a, 'x*s': lambda a: a * sv, 's*x': lambda a: sv * a, 'x/s': lambda a: a / sv,
+          'x+=s': lambda a: a + sv, 'x-=s': lambda a: a - sv, 'x*=s': lambda a: a * sv, 'x/=s': lambda a: a / sv}[o]
     return 'TT.scalar(%s)' % o, f, (x,), {'_model': lambda a: _m(fm(a), (_n(a) + abs(sv) * a.numel() ** 0.5) * max(1.0, abs(sv), 1.0 / abs(sv) if sv != 0 else 1.0))}
 
 
